@@ -23,7 +23,7 @@ PENDING = {k: "simulation target (DESIGN 3) whose check is still being built in 
 CHECKS = {
  "C14": dict(engine="procsim", category="fault_enumeration", design="DESIGN.md section 3 (C14)",
    technique="deterministic simulation over process incarnations: a seeded controller drives real interpreter incarnations (per-incarnation PYTHONHASHSEED) sharing a scratch disk, injecting crashes inside the cache write, cache damage, source edits and mtime clock jumps; plus exhaustive truncation points at the decode layer",
-   text="A run is a seeded history over one generated namespace: write source, load, then edits (mtime and/or size, clock jumping back), damage to the cache file (truncation anywhere, empty, header-only, magic, mtime/size +-1, delete), loads that lose power or get ENOSPC after k bytes of the cache write, loads during which the source is edited (after read+compile, before the cache write), and clean loads - every load in a real interpreter incarnation forked from a booted basilisp of one of four hash seeds (0 = hash randomisation off, 11, 22, 33), through the real import machinery. Oracles after every judged load: snapshot (Vars, metadata, canonical values, keyword interning, recorded calls) equals a from-source reference incarnation under the same seed; an invalid cache is never executed, not even partly (effect log exactly one pass); the import succeeds; a valid cache is left behind. Every final cache file is cut at every proper prefix (exhaustive up to 20 KB quick / 150 KB thorough, dense sample beyond) through the real header+unmarshal function, and one representative of every exception class seen goes through the full import path. Thorough adds the bundled namespaces written under one seed, loaded under another and compared with from-source.",
+   text="A run is a seeded history over one generated namespace: write source, load, then edits (mtime and/or size, clock jumping back), damage to the cache file (truncation anywhere, empty, header-only, magic, mtime/size +-1, delete), loads that lose power or get ENOSPC after k bytes of the cache write, loads during which the source is edited (after read+compile, before the cache write), loads followed by an edit and a reload in the same process (the cache is then written by a process that already holds the namespace), and clean loads - every load in a real interpreter incarnation forked from a booted basilisp of one of four hash seeds (0 = hash randomisation off, 11, 22, 33), through the real import machinery. Oracles after every judged load: snapshot (Vars, metadata, canonical values, keyword interning, recorded calls) equals a from-source reference incarnation under the same seed; an invalid cache is never executed, not even partly (effect log exactly one pass); the import succeeds; a valid cache is left behind. Every final cache file is cut at every proper prefix (exhaustive up to 20 KB quick / 150 KB thorough, dense sample beyond) through the real header+unmarshal function, and one representative of every exception class seen goes through the full import path. Thorough adds the bundled namespaces written under one seed, loaded under another and compared with from-source.",
    note="Trusted: crash model = a prefix of the intended bytes is durable (what the property states); fork of a booted interpreter stands for a fresh process of that hash seed; the snapshot canonicaliser; the debug Var *generated-python* (present only after a from-source compile, by design) is excluded. A load that was itself crashed is not judged."),
  "C19": dict(engine="netsim", category="fault_enumeration", design="DESIGN.md section 3 (C19)",
    technique="deterministic simulation of the nREPL socket loop on simulated stream sockets with seeded fragmentation/EOF/reset/send faults, plus exhaustive cut-point enumeration of generated bencode streams against a reference codec",
